@@ -625,6 +625,16 @@ class Interp(object):
             o = Obj('Constant', value=val, kind=None)
             self.events.append(('new', o))
             return o
+        if self.model is not None and getattr(ast, cref.name, None) is None:
+            cqs = [cq for cq in self.model.classes if cq.rsplit('.', 1)[1] == cref.name]
+            if len(cqs) == 1:
+                o = Obj(cref.name)
+                self.events.append(('new', o))
+                init = self.model.method(cqs[0], '__init__')
+                if init is not None:
+                    owner = [k for k in self.model.mro(cqs[0]) if self.model.funcs.get(k + '.__init__') is init][0]
+                    self.call_closure(Closure(init.node, {}, self, self_obj=o, cls=owner), list(args), dict(kwargs))
+                return o
         fields = getattr(getattr(ast, cref.name, None), '_fields', None)
         attrs = dict(kwargs)
         if fields:
